@@ -771,33 +771,39 @@ func runWeightedBigFamilies(run *core.Run, o wgOpts) {
 		chains = []int{101, 130, 160, 220, 400}
 	}
 	for _, L := range levels {
-		td := &openfgav1.TypeDefinition{Type: "o", Relations: map[string]*openfgav1.Userset{}, Metadata: &openfgav1.Metadata{Relations: map[string]*openfgav1.RelationMetadata{}}}
-		for i := 0; i < L; i++ {
-			td.Relations[fmt.Sprintf("a%03d", i)] = gen.Union(gen.Computed(fmt.Sprintf("a%03d", i+1)), gen.Computed(fmt.Sprintf("b%03d", i+1)))
-			td.Relations[fmt.Sprintf("b%03d", i)] = gen.Union(gen.Computed(fmt.Sprintf("b%03d", i+1)), gen.Computed(fmt.Sprintf("a%03d", i+1)))
-		}
-		for _, n := range []string{fmt.Sprintf("a%03d", L), fmt.Sprintf("b%03d", L)} {
-			td.Relations[n] = gen.This()
-			td.Metadata.Relations[n] = &openfgav1.RelationMetadata{DirectlyRelatedUserTypes: []*openfgav1.RelationReference{gen.RefType("user")}}
-		}
-		m := &openfgav1.AuthorizationModel{SchemaVersion: "1.1", TypeDefinitions: []*openfgav1.TypeDefinition{{Type: "user"}, td}}
-		checkWeightedModel(run, m, run.Rng("fam-ladder", L), o)
+		checkWeightedModel(run, computedLadder(L), run.Rng("fam-ladder", L), o)
 		run.Count("family_models", 1)
 		run.Max("computed_ladder_levels", int64(L))
 	}
 	for _, N := range chains {
-		td := &openfgav1.TypeDefinition{Type: "o", Relations: map[string]*openfgav1.Userset{}, Metadata: &openfgav1.Metadata{Relations: map[string]*openfgav1.RelationMetadata{}}}
-		for i := 0; i < N; i++ {
-			td.Relations[fmt.Sprintf("r%03d", i)] = gen.Computed(fmt.Sprintf("r%03d", i+1))
-		}
-		last := fmt.Sprintf("r%03d", N)
-		td.Relations[last] = gen.This()
-		td.Metadata.Relations[last] = &openfgav1.RelationMetadata{DirectlyRelatedUserTypes: []*openfgav1.RelationReference{gen.RefType("user"), gen.RefWild("user")}}
-		m := &openfgav1.AuthorizationModel{SchemaVersion: "1.1", TypeDefinitions: []*openfgav1.TypeDefinition{{Type: "user"}, td}}
-		checkWeightedModel(run, m, run.Rng("fam-chain", N), o)
+		checkWeightedModel(run, computedChain(N), run.Rng("fam-chain", N), o)
 		run.Count("family_models", 1)
 		run.Max("computed_chain_length", int64(N))
 	}
+}
+
+func computedLadder(L int) *openfgav1.AuthorizationModel {
+	td := &openfgav1.TypeDefinition{Type: "o", Relations: map[string]*openfgav1.Userset{}, Metadata: &openfgav1.Metadata{Relations: map[string]*openfgav1.RelationMetadata{}}}
+	for i := 0; i < L; i++ {
+		td.Relations[fmt.Sprintf("a%03d", i)] = gen.Union(gen.Computed(fmt.Sprintf("a%03d", i+1)), gen.Computed(fmt.Sprintf("b%03d", i+1)))
+		td.Relations[fmt.Sprintf("b%03d", i)] = gen.Union(gen.Computed(fmt.Sprintf("b%03d", i+1)), gen.Computed(fmt.Sprintf("a%03d", i+1)))
+	}
+	for _, n := range []string{fmt.Sprintf("a%03d", L), fmt.Sprintf("b%03d", L)} {
+		td.Relations[n] = gen.This()
+		td.Metadata.Relations[n] = &openfgav1.RelationMetadata{DirectlyRelatedUserTypes: []*openfgav1.RelationReference{gen.RefType("user")}}
+	}
+	return &openfgav1.AuthorizationModel{SchemaVersion: "1.1", TypeDefinitions: []*openfgav1.TypeDefinition{{Type: "user"}, td}}
+}
+
+func computedChain(N int) *openfgav1.AuthorizationModel {
+	td := &openfgav1.TypeDefinition{Type: "o", Relations: map[string]*openfgav1.Userset{}, Metadata: &openfgav1.Metadata{Relations: map[string]*openfgav1.RelationMetadata{}}}
+	for i := 0; i < N; i++ {
+		td.Relations[fmt.Sprintf("r%03d", i)] = gen.Computed(fmt.Sprintf("r%03d", i+1))
+	}
+	last := fmt.Sprintf("r%03d", N)
+	td.Relations[last] = gen.This()
+	td.Metadata.Relations[last] = &openfgav1.RelationMetadata{DirectlyRelatedUserTypes: []*openfgav1.RelationReference{gen.RefType("user"), gen.RefWild("user")}}
+	return &openfgav1.AuthorizationModel{SchemaVersion: "1.1", TypeDefinitions: []*openfgav1.TypeDefinition{{Type: "user"}, td}}
 }
 
 func replayWeighted(run *core.Run, c *core.Case) {
